@@ -7,8 +7,15 @@ predicts "no storage that existed before the call is written" for each of these 
 (theorem public_programs_pure); (b) random operation sequences on one real hedger with several
 derivatives vs a fresh hedger holding the same parameters at every step (theorem
 history_independence predicts equality).
+
+property side, beyond the model: every public functional of pfhedge.nn.functional (arguments built
+from its signature) on caller tensors of four memory layouts under the same monitor; histories in
+which the INSTRUMENT objects are reused (dtype changes, re-simulation, other path counts) vs newly
+constructed instruments holding bit-identical buffers; feature OBJECTS shared between bindings /
+hedgers vs feature objects of their own.
 """
 import copy
+import inspect
 from fractions import Fraction as F
 from common import *  # noqa
 from hedge_common import *  # noqa
@@ -79,6 +86,71 @@ def check(ctx):
         def forward(self, x):
             x.mul_(0.5)
             return x[..., :1].clone()
+
+    # ---- every public functional of pfhedge.nn.functional on caller-owned tensors of several memory layouts: the arguments are built
+    # from the signature (parameter name -> role), so a functional added later is swept too (or reported as unmapped)
+    FN_PUBLIC = sorted(nm for nm, f_ in vars(fnl).items() if inspect.isfunction(f_) and f_.__module__ == fnl.__name__ and not nm.startswith("_"))
+    LAYOUTS = ["contiguous", "view_of_larger", "transposed", "row_view"]
+    unmapped = set()
+
+    def lay(t, kind):
+        """the values of `t` as a caller tensor of the given memory layout -> (tensor, the tensors whose storage it lives in)"""
+        if kind == "view_of_larger":
+            big = torch.stack([t, t + 1.0], dim=-1)
+            return big[..., 0], [big]
+        if kind == "transposed":
+            b = t.transpose(0, -1).contiguous()
+            return b.transpose(0, -1), [b]
+        if kind == "row_view" and t.dim() >= 2:
+            b = t.clone()
+            return b[0], [b]
+        return t.clone(), []
+
+    def functional_sweep(mk, case):
+        x = torch.tensor([[float(v) for v in r] for r in mk["spot"]], dtype=dt)       # (N, T), positive, mean far from zero
+        ones = torch.ones_like(x)
+        role = {"log_moneyness": x.log(), "max_log_moneyness": x.log().cummax(-1).values, "time_to_maturity": ones * 0.5, "volatility": ones * 0.25,
+                "sigma": ones * 0.25, "strike": ones * 1.5, "min": ones * 0.75, "max": ones * 2, "weight1": ones * 0.25, "weight2": ones * 0.75,
+                "a": ones * 0.5, "b": ones * 0.25, "rho": ones * -0.5, "m": ones * 0.125, "dt": ones[:, 0] / 64, "cost": ones / 256,
+                "input1": x / 8, "input2": x / 16, "input3": x / 4, "input4": x / 2, "unit": ones * 0.5, "payoff": x[:, 0].clone()}
+        for fname in FN_PUBLIC:
+            fn_ = getattr(fnl, fname)
+            hedging = fname in ("pl", "terminal_value")          # (N, H, T) prices and units, (N) payoff
+            kind = g.choice(LAYOUTS[:3] if hedging else LAYOUTS)
+            kw, bases, canon, ok = {}, [], {}, True
+            for pname, par in inspect.signature(fn_).parameters.items():
+                ann = str(par.annotation)
+                if "List[float]" in ann:
+                    val = [float(g.choice([0, 1, 4])) / 256]
+                elif "Tensor" in ann and not ("float" in ann and g.chance(0.5)):
+                    t_ = role.get(pname, x)
+                    if hedging and pname != "payoff":
+                        t_ = t_.unsqueeze(1)
+                    val, bs_ = lay(t_, kind)
+                    bases += bs_
+                elif pname == "dim":
+                    nd = 1 if kind == "row_view" else 2
+                    val = g.choice([None, None, 0, -1] + ([1] if nd == 2 else []))
+                elif pname in ("call", "largest", "deduct_first_cost"):      # deduct_final_cost=True is documented as unsupported
+                    val = g.chance(0.5)
+                elif pname in SCALAR_ROLE:
+                    val = g.choice(SCALAR_ROLE[pname])
+                elif par.default is not inspect.Parameter.empty:
+                    continue
+                else:
+                    ok = False
+                    break
+                kw[pname] = val
+                canon[pname] = val if not isinstance(val, torch.Tensor) else "tensor"
+            if not ok:
+                unmapped.add(fname)
+                continue
+            st, _ = monitored(f"functional.{fname}[{kind}]", fn_, watch=[("storage", bases)], case=case | {"functional": fname, "layout": kind, "args": canon}, **kw)
+            ctx.stats[f"functional_sweep:{st}"] += 1
+
+    SCALAR_ROLE = {"strike": [0.5, 1.0, 1.5], "a": [0.5, 1.0], "p": [0.25, 0.5, 1.0], "lam": [1.0, 2.0, 10.0], "clamped_slope": [0.01], "inverted_output": ["mean", "max"],
+                   "dt": [1 / 64], "cost": [1 / 256], "start_index": [0], "end_index": [-1], "epsilon": [1e-10], "b": [0.25], "rho": [-0.5], "m": [0.125],
+                   "sigma": [0.25], "weight1": [0.25], "weight2": [0.75], "log_moneyness": [0.125], "time_to_maturity": [0.5], "volatility": [0.25], "input": [0.25]}
 
     n = 120 if ctx.tier == "quick" else 2000
     for it in range(n):
@@ -160,6 +232,7 @@ def check(ctx):
             monitored("functional.bs_european_price", fnl.bs_european_price, sS, tT, vV, case=case)
             monitored("functional.bs_lookback_price", fnl.bs_lookback_price, sS, sS.cummax(-1).values, tT, vV, 1.0, case=case)
             monitored("functional.bs_american_binary_price", fnl.bs_american_binary_price, sS, sS.cummax(-1).values, tT, vV, case=case)
+        functional_sweep(mk, case)
         # automatic Greeks of a user pricer under every parameterisation, on caller tensors (negative variances included: they are
         # clamped, which must not happen in the caller's tensor); Greeks of the BS modules on caller tensors
         import pfhedge.autogreek as ag
@@ -189,6 +262,8 @@ def check(ctx):
         monitored("BrownianStock.simulate(init_state tensor)", u.simulate if mk["primary"] == "BrownianStock" else I.BrownianStock(dtype=dt).simulate,
                   n_paths=3, init_state=init, case=case)
     ctx.extra["monitored_calls"] = calls
+    ctx.extra["functionals_swept"] = len(FN_PUBLIC) - len(unmapped)
+    ctx.extra["functionals_unmapped"] = sorted(unmapped)
     # ------------------------------------------------------------------ history independence
     nh = 25 if ctx.tier == "quick" else 400
     for it in range(nh):
@@ -246,12 +321,191 @@ def check(ctx):
                          case | {"step": i, "op": op}, key=f"history:{op}",
                          detail={"used": str(v1)[:200], "fresh": str(v2)[:200]})
                 break
+    def same_result(a, b):
+        (s1, v1), (s2, v2) = a, b
+        if s1 != s2:
+            return False
+        if s1 != "ok" or not isinstance(v1, torch.Tensor):
+            return v1 == v2 if s1 != "ok" else True
+        return v1.dtype == v2.dtype and v1.shape == v2.shape and bool(((v1 == v2) | (v1.isnan() & v2.isnan())).all())
+
+    # ------------------------------------------------------------------ history independence II: the INSTRUMENT objects are reused
+    # one underlier object (with one or two derivatives on it) lives through dtype changes (to(float32) / to(float64)), re-simulations
+    # with other path counts and hedging by long-lived hedgers; every hedging result is compared with that of a NEWLY constructed
+    # underlier + derivative + hedger of the same parameters and dtype holding bit-identical copies of the current buffers
+    f32, f64 = torch.float32, torch.float64
+    nr = 14 if ctx.tier == "quick" else 200
+    for it in range(nr):
+        prim = g.choice(["BrownianStock", "HestonStock", "MertonJumpStock"])
+        step = g.choice([1 / 250, 1 / 100])
+        pkw = {"cost": g.choice([0.0, 1e-3]), "dt": step}
+        if prim != "HestonStock":
+            pkw["sigma"] = g.choice([0.2, 0.3])
+        mk_u = lambda dtype_: getattr(I, prim)(dtype=dtype_, **pkw)
+        dspecs = []
+        for _ in range(g.choice([1, 1, 2])):
+            oname = g.choice(OPTION_TYPES)
+            dkw = {"call": True if oname in ("LookbackOption", "AmericanBinaryOption") else g.chance(0.6), "strike": g.choice([0.95, 1.0, 1.05]),
+                   "maturity": g.choice([3, 5, 8]) * step}
+            listed = g.choice([None, None, (2.0, 0.25)])
+            model_kind = g.choice(["BlackScholes", "WhalleyWilmott", "linear", "linear+prev_hedge"])
+            dspecs.append((oname, dkw, listed, model_kind))
+
+        def mk_d(u_, spec):
+            oname, dkw, listed, _ = spec
+            d_ = getattr(I, oname)(u_, **dkw)
+            if listed:
+                d_.list(lambda dd, a_=listed[0], b_=listed[1]: dd.ul().spot * a_ + b_, cost=1e-4)
+            return d_
+
+        def mk_h(d_, spec, model=None):
+            kind = spec[3]
+            if kind in ("BlackScholes", "WhalleyWilmott"):
+                m_ = getattr(nn, kind)(d_)
+                return Hedger(m_, m_.inputs())
+            feats_ = ["log_moneyness", "time_to_maturity", "volatility"] + (["prev_hedge"] if kind.endswith("prev_hedge") else [])
+            return Hedger(model, feats_)
+
+        cur = g.choice([f32, f64])
+        u_used = mk_u(cur)
+        d_used = [mk_d(u_used, sp) for sp in dspecs]
+        h_used = []
+        for d_, sp in zip(d_used, dspecs):
+            torch.manual_seed(g.randint(0, 10 ** 6))
+            nin = 4 if sp[3].endswith("prev_hedge") else 3
+            h_used.append(mk_h(d_, sp, model=torch.nn.Sequential(torch.nn.Linear(nin, 3, dtype=cur), torch.nn.Tanh(), torch.nn.Linear(3, 1, dtype=cur))))
+        hops = ["compute_hedge", "compute_pl", "compute_hedge", "compute_pl", "compute_loss"]
+        di0 = g.randint(0, len(dspecs) - 1)
+        # every history starts with: simulate, hedge, change of dtype; then a random tail.  op = (name, derivative, n_paths | dtype, seed)
+        ops = [("simulate", di0, g.choice([1, 3, 8]), g.randint(0, 10 ** 6)), (g.choice(hops[:2]), di0, 2, g.randint(0, 10 ** 6)),
+               ("to", 0, "float64" if cur == f32 else "float32", 0)]
+        for _ in range(g.randint(3, 7 if ctx.tier == "quick" else 20)):
+            op = g.choice(["simulate", "to", "to"] + hops)
+            if op == "to":
+                ops.append((op, 0, g.choice(["float32", "float64"]), 0))
+            else:
+                ops.append((op, g.randint(0, len(dspecs) - 1), g.choice([1, 2, 5, 8]), g.randint(0, 10 ** 6)))
+        case = {"primary": prim, "params": pkw, "derivatives": [(sp[0], sp[1], bool(sp[2]), sp[3]) for sp in dspecs], "dtype0": str(cur),
+                "ops": [o[:3] for o in ops]}
+        ctx.case(case, nontrivial=True, tag="instrument_reuse")
+        ctx.traces += 1
+        for i, (op, di, arg, seed) in enumerate(ops):
+            ctx.stats[f"reuse:{op}"] += 1
+            if op == "simulate":
+                torch.manual_seed(seed)
+                d_used[di].simulate(n_paths=arg)
+                continue
+            if op == "to":
+                cur = f32 if arg == "float32" else f64
+                d_used[di].to(cur)
+                for h_ in h_used:
+                    h_.to(cur)
+                continue
+            # newly constructed instruments holding bit-identical copies of the current buffers
+            u_new = mk_u(cur)
+            for bname, buf in list(u_used.named_buffers()):
+                u_new.register_buffer(bname, buf.detach().clone())
+            d_new = mk_d(u_new, dspecs[di])
+            h_new = mk_h(d_new, dspecs[di], model=copy.deepcopy(h_used[di].model))
+            outs = []
+            for hh, dd in ((h_used[di], d_used[di]), (h_new, d_new)):
+                torch.manual_seed(seed)
+                if op == "compute_loss":
+                    st, v, mut = call_impl(hh.compute_loss, dd, n_paths=arg)
+                else:
+                    st, v, mut = call_impl(getattr(hh, op), dd, watch=[("derivative", dd)])
+                    if mut:
+                        ctx.fail(f"Hedger.{op} modified market data in place", case | {"step": i}, key=f"mutation:Hedger.{op}", detail=mut)
+                outs.append((st, v.detach() if isinstance(v, torch.Tensor) else v))
+            ctx.stats[f"reuse-result:{outs[0][0]}"] += 1
+            if not same_result(*outs):
+                v1, v2 = outs[0][1], outs[1][1]
+                ctx.fail("the result of a hedging operation depends on what the derivative / underlier OBJECTS were used with before (differs from newly "
+                         "constructed instruments of the same parameters and dtype holding bit-identical buffers)",
+                         case | {"step": i, "op": op, "dtype": str(cur)}, key=f"instrument_history:{op}",
+                         detail={"reused": f"{getattr(v1, 'dtype', '')} {str(v1)[:200]}", "fresh": f"{getattr(v2, 'dtype', '')} {str(v2)[:200]}"})
+                break
+    # ------------------------------------------------------------------ history independence III: feature OBJECTS (not names) are shared
+    from pfhedge.features import FeatureList, ModuleOutput
+    VAL_FEATS = [f_ for f_ in BASE_FEATURES if f_ != "empty"]        # "empty" is uninitialised memory: no value to compare
+    ALL_FEATS = VAL_FEATS + ["prev_hedge"]
+    ns = 30 if ctx.tier == "quick" else 400
+    for it in range(ns):
+        mks = [gen_market(g), gen_market(g)]
+        ders = [build_derivative(torch, mk_)[0] for mk_ in mks]
+        thr = g.choice([x for p in mks[0]["spot"] for x in p])
+        Tmin = min(mk_["T"] for mk_ in mks)
+        # (a) ONE feature object bound to two (derivative, hedger) pairs: each binding keeps giving the values of ITS derivative / hedger,
+        # i.e. what a feature object of its own gives.  (ModuleOutput is not included here: its `of` is documented and modelled as a
+        # re-binding of the module itself - it is shared through the hedgers of part (b), where every operation re-binds first.)
+        hs = []
+        with torch.no_grad():
+            for d_ in ders:
+                h_ = Hedger(model_obj(torch, gen_linear(g, 2, 1)), ["moneyness", "prev_hedge"])
+                h_.compute_hedge(d_)                       # leaves this hedger's own prev_output
+                hs.append(h_)
+            fl_names = [g.choice(ALL_FEATS) for _ in range(3)]
+            ts = g.choice([None, g.randint(0, Tmin - 1), g.randint(0, Tmin - 1)])
+            case = {"markets": [{k: (enc_rat(v) if k in ("spot", "vol", "var") else str(v)) for k, v in mk_.items()} for mk_ in mks], "time_step": ts,
+                    "threshold": str(thr), "list": fl_names}
+            ctx.case(case, True, tag="shared_feature_object")
+            ctx.traces += 1
+            mkf = lambda nm: FeatureList([feature_obj(torch, n_, mks[0], thr) for n_ in fl_names]) if nm == "FeatureList" else get_feature(feature_obj(torch, nm, mks[0], thr))
+            for name in ALL_FEATS + ["FeatureList"]:
+                fo = mkf(name)
+                order = g.choice([(0, 1), (1, 0)])
+                b_first = fo.of(ders[order[0]], hs[order[0]])
+                early = call_impl(b_first.get, ts)[:2]
+                b_second = fo.of(ders[order[1]], hs[order[1]])
+                for which, bound, k in (("first", b_first, order[0]), ("second", b_second, order[1])):
+                    got = call_impl(bound.get, ts)[:2]
+                    want = call_impl(mkf(name).of(ders[k], hs[k]).get, ts)[:2]
+                    ctx.stats[f"shared_feature:{got[0]}"] += 1
+                    if not same_result(got, want) or (which == "first" and not same_result(early, want)):
+                        ctx.fail(f"feature object {name}: the binding obtained from .of(derivative {k}) gives other values than a feature object of its own "
+                                 f"after the same object was bound to another derivative / hedger", case | {"feature": name, "binding": which, "order": order},
+                                 key=f"feature_rebind:{name}", detail={"got": str(got[1])[:200], "own_object": str(want[1])[:200]})
+                        break
+        # (b) two hedgers built from the SAME list of feature objects (incl. a shared PrevHedge / ModuleOutput object), used alternately on
+        # different derivatives, vs hedgers with feature objects of their own
+        names = [g.choice(VAL_FEATS) for _ in range(2)] + g.choice([[], ["prev_hedge"], ["module_output"], ["prev_hedge", "module_output"]])
+        mo_ms = gen_linear(g, 2, 1)
+        def objs():
+            return [ModuleOutput(model_obj(torch, mo_ms), [feature_obj(torch, "log_moneyness", mks[0], thr), feature_obj(torch, "time_to_maturity", mks[0], thr)])
+                    if nm == "module_output" else get_feature(feature_obj(torch, nm, mks[0], thr)) for nm in names]
+        shared = objs()
+        mss = [gen_linear(g, len(names), 1) for _ in range(2)]
+        h_shared = [Hedger(model_obj(torch, ms_), shared) for ms_ in mss]
+        h_own = [Hedger(model_obj(torch, ms_), objs()) for ms_ in mss]
+        seq = [(g.randint(0, 1), g.randint(0, 1), g.choice(["compute_hedge", "compute_pl", "compute_portfolio"] + ([] if "prev_hedge" in names else ["get_input"])))
+               for _ in range(g.randint(4, 8))]           # get_input binds without a hedger: not defined with prev_hedge
+        case = {"features": names, "sequence": seq, "markets": [{k: (enc_rat(v) if k in ("spot", "vol", "var") else str(v)) for k, v in mk_.items()} for mk_ in mks]}
+        ctx.case(case, True, tag="shared_feature_list")
+        with torch.no_grad():
+            for i, (hi, di, op) in enumerate(seq):
+                args_ = (ders[di], g.choice([None, 0])) if op == "get_input" else (ders[di],)
+                outs = []
+                for hh in (h_shared[hi], h_own[hi]):
+                    st, v, mut = call_impl(getattr(hh, op), *args_, watch=[("derivative", ders[di])])
+                    if mut:
+                        ctx.fail(f"Hedger.{op} modified market data in place", case | {"step": i}, key=f"mutation:Hedger.{op}", detail=mut)
+                    outs.append((st, v))
+                ctx.stats[f"shared_list:{op}:{outs[0][0]}"] += 1
+                if not same_result(*outs):
+                    ctx.fail("the result of a hedging operation depends on which other hedger / derivative the same feature objects were used with before "
+                             "(differs from a hedger with feature objects of its own)", case | {"step": i, "op": op}, key=f"shared_features:{op}",
+                             detail={"shared": str(outs[0][1])[:200], "own": str(outs[1][1])[:200]})
+                    break
     # ------------------------------------------------------------------ model side: programs predicted pure
     return ctx.finish(
         rule="mutation sweep: every built-in feature (both modes, log variants, ModuleOutput), payoff, listed price incl. a pricer returning a view, "
              "hedger computations in both branches, BS/WW modules, criteria (forward, cash), functional pl/clamps/payoffs/bisect/bs prices on 4 underlier "
              "types x 4 option types with bitwise snapshots; history: random interleavings of simulate/compute_hedge/compute_pl/compute_loss/price/fit on one "
-             "hedger with 2-3 derivatives of changing path counts vs a fresh hedger; every case non-trivial; distinct = sha1 of canonical case")
+             "hedger with 2-3 derivatives of changing path counts vs a fresh hedger; functional sweep: every public function of pfhedge.nn.functional "
+             "(arguments from the signature) on contiguous / view-of-larger / transposed / row-view caller tensors; instrument reuse: one underlier with 1-2 "
+             "derivatives through to(float32/float64), simulate, compute_hedge/pl/loss by long-lived BS/WW/linear hedgers vs newly constructed instruments "
+             "with copied buffers; shared feature objects: one object bound to two (derivative, hedger) pairs, and two hedgers on one list of feature objects "
+             "used alternately, vs objects of their own; every case non-trivial; distinct = sha1 of canonical case")
 
 
 def nn_module_output(torch, mk, thr, g):
